@@ -25,7 +25,7 @@ for d in sorted(glob.glob(V+"/seeded/C*-*")):
             print(sid,"PATCH DOES NOT APPLY",r.stderr[:200]); meta["detected_by"]="patch does not apply to current /repo nor to its base"; json.dump(meta,open(d+"/meta.json","w"),indent=1); continue
         base_note="patch conflicts with a later fix commit of /repo; checked against its base commit "+base
     shutil.rmtree(SV,ignore_errors=True); os.makedirs(SV); shutil.copy(V+"/known_findings.json",SV)
-    out=subprocess.run([V+"/bin/sopverif","check","--property","all","--repo",S,"--verif",SV],capture_output=True,text=True).stdout
+    out=subprocess.run([os.environ.get("SOPVERIF",V+"/bin/sopverif"),"check","--property","all","--repo",S,"--verif",SV],capture_output=True,text=True).stdout
     rules=sorted(set(re.findall(r"^\s+(?:violated|undecided) \[(C\d+\.[A-Za-z0-9]+)\]",out,re.M)))
     own=[x for x in rules if x.startswith(meta["property"]+".")]
     meta["detected_by"]={"own_property_rules":own,"all_rules":rules,"checked_at_repo_commit":subprocess.check_output("git -C /repo rev-parse --short HEAD",shell=True,text=True).strip()}
